@@ -1,7 +1,8 @@
 import MakoModel.Conc.Model
 /-!
 Helper lemmas for the C16 theorems: case analysis of `tstep`/`startOp`, frame facts of the collection
-operations, the induction principle over schedules, the mutex invariant and what follows from it.
+operations, the induction principle over schedules (`reachable_induction`), the mutex invariant (`MutexInv`: a thread
+is at a critical-section pc, `gRelS` included, iff it is the recorded holder) and when a thread has no step.
 -/
 namespace MakoModel.Conc
 
